@@ -117,13 +117,17 @@ class Registry(object):
         self.log.append(("badconv", args, kwargs))
         return BadConv()
 
+    def wrapped(self, *args, **kwargs):
+        # an ordinary pass-through decorator around add2: a mismatch surfaces one frame below the callable
+        return self.add2(*args, **kwargs)
+
     def retfault(self, *args, **kwargs):
         # returns (does not raise) an error object it built itself, with the default configuration
         self.log.append(("retfault", args, kwargs))
         return jsonrpc.Fault(-32050, "custom fault")
 
     def install(self, dispatcher):
-        for name in ("echo", "add2", "opt", "boom", "retv", "badconv", "retfault"):
+        for name in ("echo", "add2", "opt", "boom", "retv", "badconv", "retfault", "wrapped"):
             dispatcher.register_function(getattr(self, name), name)
         # names that look like attributes of dict / the dispatcher / dotted
         dispatcher.register_function(self.echo, "keys")
@@ -262,7 +266,7 @@ def config_snapshot(config):
 # ---------------------------------------------------------------------------
 # oracle (from the property texts)
 
-KNOWN_FUNCS = ("echo", "add2", "opt", "boom", "retv", "badconv", "retfault", "keys", "a.b", "méthode x")
+KNOWN_FUNCS = ("echo", "add2", "opt", "boom", "retv", "badconv", "retfault", "wrapped", "keys", "a.b", "méthode x")
 
 
 def classify(entry):
@@ -287,7 +291,7 @@ def classify(entry):
 def arity_ok(method, params):
     if method in ("echo", "boom", "retv", "badconv", "retfault", "keys", "a.b", "méthode x"):
         return True
-    if method == "add2":
+    if method in ("add2", "wrapped"):
         if isinstance(params, list):
             return len(params) == 2
         return set(params) == {"a", "b"}
@@ -338,12 +342,12 @@ def call_outcome(shape, L, method, params):
         args, kwargs = (), dict(params)
     if method in ("echo", "keys", "a.b", "méthode x"):
         return ("result", [list(args), kwargs]), ("echo", args, kwargs)
-    if method in ("add2", "opt"):
+    if method in ("add2", "opt", "wrapped"):
         if kwargs:
             a, b = kwargs["a"], kwargs.get("b", 5)
         else:
             a, b = args[0], (args[1] if len(args) > 1 else 5)
-        return ("result", [a, b]), (method, (a, b), {})
+        return ("result", [a, b]), ("add2" if method == "wrapped" else method, (a, b), {})
     if method == "boom":
         return ("error", -32603), ("boom", args, kwargs)
     if method == "retv":
